@@ -337,6 +337,13 @@ func WithSlash(r *s3c.Req) *s3c.Req {
 	return &n
 }
 
+// WithTail appends further path text to a bucket path (e.g. "//": empty segments after the bucket name).
+func WithTail(r *s3c.Req, tail string) *s3c.Req {
+	n := *r
+	n.Path = strings.TrimSuffix(n.Path, "/") + tail
+	return &n
+}
+
 // RouterShapes are the (method, shape) pairs the table covers; the harness
 // compares them with s3api/router.go of the current tree at start-up.
 func RouterShapes() map[string]bool {
